@@ -254,7 +254,8 @@ func plan(c *hxlib.Ctx) []histIn {
 			l = append(l, histIn{N: n, Own: c.Rand.Intn(n), Profile: profile, Seed: c.Rand.Int63()})
 		}
 	}
-	add(4, c.N(26), "mixed")
+	add(4, c.N(22), "mixed")
+	add(4, c.N(8), "stalecb")
 	add(4, c.N(16), "window")
 	add(4, c.N(8), "timeouts")
 	add(4, c.N(6), "nocrash")
